@@ -116,6 +116,58 @@ func Shape(t *stree.Tree[Elem]) (string, int) {
 	return sb.String(), maxd
 }
 
+// MaxDepth returns the maximum depth (edges below the root; -1 for an empty
+// tree) by walking one cursor through the public navigation API, without
+// building the shape string.
+func MaxDepth(t *stree.Tree[Elem]) int {
+	c := t.Root()
+	if !c.Valid() {
+		return -1
+	}
+	// Iterative post-order walk with Left/Right/Up; state = where we came from.
+	best, d := 0, 0
+	const (
+		down = iota
+		fromLeft
+		fromRight
+	)
+	from := down
+	for {
+		switch from {
+		case down:
+			if d > best {
+				best = d
+			}
+			if c.HasLeft() {
+				c.Left()
+				d++
+				continue
+			}
+			from = fromLeft
+		case fromLeft:
+			if c.HasRight() {
+				c.Right()
+				d++
+				from = down
+				continue
+			}
+			from = fromRight
+		case fromRight:
+			if !c.HasParent() {
+				return best
+			}
+			k := c.Key().K
+			c.Up()
+			d--
+			if k < c.Key().K {
+				from = fromLeft
+			} else {
+				from = fromRight
+			}
+		}
+	}
+}
+
 // Key implements mc.Inst: shape + hidden max + P (when the depth oracle needs
 // it). beta is fixed per search.
 func (s *Inst) Key() string {
